@@ -337,6 +337,24 @@ def scale_free_guards(ctx, obs):
     ctx.floor('guards on accumulated fluctuation products', n, 1)
 
 
+def key_order_agreement(ctx, obs):
+    """re-sorting by keys is 'the corresponding permutation' of the combined fit: sort_corr and least_squares order the keys by the
+    same plain sorted() (no key function, no reverse)"""
+    rule = 'C06-D3'
+    fits = ctx.repo.mod('fits')
+    sites = []
+    for mod, q in ((obs, 'sort_corr'), (fits, 'least_squares')):
+        f = mod.func(q)
+        for c in walk(f):
+            if isinstance(c, ast.Call) and call_name(c) == 'sorted' and mod.enclosing_func(c) is f and c.args and any(k in unparse(c.args[0]) for k in ('kl', 'keys()', 'xd', 'funcd')):
+                sites.append((mod, q, c))
+    for mod, q, c in sites:
+        ctx.check(rule, '%s:%s#key-order[%s]' % (mod.relpath.replace('pyerrors/', ''), q, unparse(c)[:40]), not c.keywords, 'keys ordered by plain sorted()',
+                  '%s orders the keys with %s: the order differs from the plain sorted() used by %s, the matrix no longer matches the data arranged by the fit' % (
+                      q, unparse(c), 'the combined fit' if q == 'sort_corr' else 'sort_corr'), mod.loc(c))
+    ctx.floor('key orderings (sort_corr / least_squares)', len(sites), 2)
+
+
 def run(ctx):
     ctx.rule('C06-D1', 'covariance(): fill, mirror, corr, rescale')
     ctx.rule('C06-D2', '_covariance_element: zero for disjoint, common names only, g1^T C g2, normalisation')
@@ -347,6 +365,7 @@ def run(ctx):
     ctx.guarded('C06-D2', 'obs.py:_covariance_element', cov_element, ctx, obs)
     ctx.guarded('C06-D2', 'obs.py:_covariance_element@scale-free', scale_free_guards, ctx, obs)
     ctx.guarded('C06-D3', 'obs.py@helpers', helpers, ctx, obs)
+    ctx.guarded('C06-D3', 'obs.py@key-order', key_order_agreement, ctx, obs)
     from . import C04
     ctx.guarded('C06-D2', 'obs.py:_intersection_idx', C04.merge_idx_rules, ctx, obs, 'C06-D2', (('_intersection_idx', 'intersection'),))
     ctx.floor('C06 obligations', len(ctx.obs), 18)
